@@ -12,6 +12,8 @@ import (
 
 	"pgregory.net/rapid"
 
+	js "github.com/jsightapi/jsight-schema-go-library/notations/jschema"
+
 	"verif/gen"
 	"verif/lib"
 	"verif/ref"
@@ -618,6 +620,107 @@ func TestLayeredGraphs(t *testing.T) {
 		}
 		if n == 30 {
 			run.Sample(chkLayered, map[string]any{"form": form, "levels": n, "schema": sp.Schema, "first_type": sp.Types[0]})
+		}
+	})
+}
+
+// ---------------------------------------------------------------------------------------
+// One name, two tables: a type object may be given a definition of a name of its own (added to
+// that type object), next to another definition of the same name elsewhere. A chain of required
+// references is followed through the table of the type that writes the reference - whatever other
+// type of that name was walked before, and in whichever order the root lists its properties.
+
+const chkNames = "one-name-two-tables"
+
+type NamesCase struct {
+	Root      string `json:"root"`
+	HarmlessX string `json:"x_of_A"`
+	CyclicX   string `json:"x_of_B"`
+	Chain     int    `json:"extra_types_on_the_cycle"`
+	Required  bool   `json:"the_cycle_is_made_of_required_references"`
+}
+
+func init() {
+	run.RegisterReplay(chkNames, func(t run.TB, raw json.RawMessage) {
+		var c NamesCase
+		if err := json.Unmarshal(raw, &c); err != nil {
+			t.Fatalf("bad case: %v", err)
+		}
+		checkNames(t, c)
+	})
+}
+
+func checkNames(t run.TB, c NamesCase) {
+	must := func(err error) {
+		if err != nil {
+			t.Fatalf("harness: AddType: %v", err)
+		}
+	}
+	x1 := js.New("@X", c.HarmlessX)
+	x2 := js.New("@X", c.CyclicX)
+	a := js.New("@A", "{\n  \"x\": @X\n}")
+	b := js.New("@B", "{\n  \"x\": @X\n}")
+	must(a.AddType("@X", x1))
+	must(b.AddType("@X", x2))
+	// the cycle: X2 -> @Y0 -> ... -> @B (each type knows the next one)
+	prev := x2
+	for i := 0; i < c.Chain; i++ {
+		name := fmt.Sprintf("@Y%d", i)
+		next := "@B"
+		if i+1 < c.Chain {
+			next = fmt.Sprintf("@Y%d", i+1)
+		}
+		y := js.New(name, "{\n  \"n\": "+next+"\n}")
+		must(prev.AddType(name, y))
+		prev = y
+	}
+	must(prev.AddType("@B", b))
+	r := js.New("root", c.Root)
+	must(r.AddType("@A", a))
+	must(r.AddType("@B", b))
+	must(r.AddType("@X", x2))
+	var cr lib.Res
+	if msg := timed("Check", 20*time.Second, func() { cr = lib.Check(r) }); msg != "" {
+		run.Fail(t, chkNames, c, "%s", msg)
+	}
+	if cr.Panic != "" {
+		run.Fail(t, chkNames, c, "Check panicked: %s", cr.Panic)
+	}
+	if c.Required && cr.OK {
+		run.Fail(t, chkNames, c, "@B requires @X (the one of its own table), which requires its way back to @B: no finite document exists, yet Check accepts")
+	}
+	if !c.Required && !cr.OK {
+		run.Fail(t, chkNames, c, "the cycle @B -> @X -> ... -> @B passes through an optional property, yet Check rejects: %v", cr)
+	}
+}
+
+func TestOneNameTwoTables(t *testing.T) {
+	run.SkipIfReplaying(t)
+	defer run.Done(t, chkNames)
+	rapid.Check(t, func(t *rapid.T) {
+		c := NamesCase{Chain: rapid.IntRange(0, 2).Draw(t, "chain"), Required: rapid.IntRange(0, 2).Draw(t, "required") != 0}
+		c.Root = rapid.SampledFrom([]string{"{\n  \"a\": @A,\n  \"b\": @B\n}", "{\n  \"b\": @B,\n  \"a\": @A\n}", "{\n  \"a\": @A,\n  \"z\": [@A],\n  \"b\": @B\n}", "[\n  @A,\n  @B\n]"}).Draw(t, "root")
+		c.HarmlessX = rapid.SampledFrom([]string{"{\n  \"v\": 1\n}", "1", "\"s\" // {minLength: 1}", "[]"}).Draw(t, "harmless")
+		next := "@B"
+		if c.Chain > 0 {
+			next = "@Y0"
+		}
+		c.CyclicX = "{\n  \"b\": " + next + "\n}"
+		if !c.Required {
+			c.CyclicX = "{\n  \"b\": " + next + " // {optional: true}\n}"
+		}
+		if strings.HasPrefix(c.Root, "[") && !c.Required {
+			// (array items are no required references: both variants are accepted there)
+		}
+		if strings.HasPrefix(c.Root, "[") {
+			c.Required = false // reached through array items only: the statement's accepting clause
+		}
+		checkNames(t, c)
+		run.Eval(chkNames, true, c.Root, c.HarmlessX, c.CyclicX, fmt.Sprint(c.Chain))
+		if c.Required {
+			run.Label("names:required-cycle-behind-a-reused-name")
+		} else {
+			run.Label("names:broken-cycle-behind-a-reused-name")
 		}
 	})
 }
